@@ -105,6 +105,9 @@ def c04_runs(tier):
     r[0]['covers'] += ['C04.timerfd-armed', 'C04.unbounded-wait-relies-on-timerfd']
     r += per_method('fullpair', [0, 2] if q else [0, 1, 2, 3], ['timer.handler-ran'], K=0, T=2, R=2, acts=A_TIMER,
                     A=1, L=1, symtruth=0, symtime=1)
+    # interrupted waits: part of the timeout has elapsed when EINTR comes back
+    r += per_method('eintr', [0, 1] if q else [0, 1, 2, 3], ['timer.handler-ran', 'env.eintr-injected'], K=1, T=1, R=4,
+                    acts=0, A=0, L=0, symtruth=0, symtime=2, patterns=1, faults=2, eintr=2)
     return r
 
 
@@ -127,7 +130,8 @@ def c07_runs(tier):
                method=3, P=0),
         mt_run('event-register-fails.ppoll', 'harness/event.c',
                ['C07.event-register-fails', 'C07.loop-returns-after-failed-registration'], preempt=0, regfail=1,
-               method=2, P=0)]
+               method=2, P=0)] + per_method('timerfd-cycle', [0], ['C04.timerfd-armed', 'timer.handler-ran'], K=1, T=2,
+                                             R=8, acts=A_TIMER, A=1, L=1, symtruth=0, symtime=2, patterns=1)
 
 
 def timers_run(name, defs=(), covers=(), **params):
